@@ -89,12 +89,46 @@ theorem logging_one_request_per_evaluation (env : Env) (run : Run) (n id : Nat) 
       run .evaluate x o { s1 with events := .log msg (!sw.truthy) :: s1.events } := by
   simp [nodeOp, bind_run, hon, hs]
 
+/-- the run appended events to the log, none of them a log record (emitted or suppressed) -/
+def NoNewLog (s s' : St) : Prop := ∃ l, s'.events = l ++ s.events ∧ ∀ e ∈ l, e.isLog = false
+
+theorem noNewLog_rel : CacheRel NoNewLog where
+  refl _ := ⟨[], rfl, by simp⟩
+  trans := fun ⟨l1, h1, q1⟩ ⟨l2, h2, q2⟩ => ⟨l2 ++ l1, by rw [h2, h1, List.append_assoc], by
+    intro e he; rcases List.mem_append.mp he with h | h
+    · exact q2 e h
+    · exact q1 e h⟩
+  emit _ ev hq := ⟨[ev], rfl, by simpa using hq⟩
+  setCache s c es := ⟨[], by unfold St.setCacheEntries; split <;> rfl, by simp⟩
+  setScripts _ _ := ⟨[], rfl, by simp⟩
+
+/-- **logging_off_silent.** Under `with labrea.logging.disabled():` no operation of any expression (all
+    23 node kinds, datasets with any nesting of `Logged` wrappers included), on any options, from any
+    state, with caches on or off, produces a log record — not even one suppressed by the option switch:
+    the `LABREA.LOGGING.DISABLED` option is not consulted at all. -/
+theorem logging_off_silent {env : Env} (hoff : env.logCtxOff = true) (n : Nat) (op : Op) (e : Expr) (o : V)
+    (s : St) (r : Except Err V) (s' : St) (h : ev env n op e o s = some (r, s')) :
+    ∃ l, s'.events = l ++ s.events ∧ ∀ e ∈ l, e.isLog = false :=
+  ((spec_ev noNewLog_rel truePred env (Or.inl hoff) n op e o).run s r s' h).1
+
+/-- validate / keys / explain never log, logging on or off (they are not evaluations) -/
+theorem inspection_of_logged_never_logs (env : Env) (run : Run) (n id : Nat) (x : Expr) (msg : String) (o : V) (op : Op)
+    (hop : op ≠ .evaluate) : nodeOp env run n op (.logged id x msg) o = run op x o := by
+  cases op <;> simp [nodeOp] at hop ⊢
+
 /-! non-vacuity: the cache-off hypothesis is satisfiable and the run terminates -/
 def c16Env : Env :=
   { β := fun f a k => .ok (.app f a k), binds := fun _ _ => .error "x", ov := fun _ => default,
     ds := fun _ => default, cacheKind := fun _ => .memory, cacheCtxOff := true }
 
 example : c16Env.cacheCtxOff = true := rfl
+
+/-- non-vacuity of `logging_off_silent`: a logged node under the context manager terminates and its
+    event log holds the log *request* only; with the context manager off the same node logs -/
+example : (ev { c16Env with logCtxOff := true } 6 .evaluate (.logged 2 (.value 1 (.int 7)) "m") (.dict []) {}).map
+    (fun p => p.2.events.any Event.isLog) = some false := by decide +kernel
+example : (ev c16Env 6 .evaluate (.logged 2 (.value 1 (.int 7)) "m") (.dict []) {}).map
+    (fun p => p.2.events.any Event.isLog) = some true := by decide +kernel
 example : (ev c16Env 5 .evaluate (.cached 2 (.value 1 (.int 7)) 0) (.dict []) {}).isSome = true := by decide +kernel
 
 end Labrea
